@@ -89,3 +89,11 @@ Proof.
     match goal with Hf : forallb _ (srcs s) = true |- _ => pose proof (proj1 (forallb_forall _ _) Hf o Ho) as Hx end.
     destruct o; [reflexivity|discriminate].
 Qed.
+
+(* row[i] = v (numpy raises IndexError beyond the row: not reachable for an index taken from the header's own list) *)
+Fixpoint set_nth {A} (i : nat) (v : A) (l : list A) : list A :=
+  match l, i with
+  | [], _ => []
+  | _ :: tl, O => v :: tl
+  | x :: tl, S i' => x :: set_nth i' v tl
+  end.
